@@ -69,6 +69,10 @@ EXTRA = {
         ("X", "(lambda s: (s.Where(lambda k: k.pt > 1).Select(lambda k: k.pt), s.Where(lambda m: m.eta > 1).Count()))(e.jets)"),
         # helper with lambdas nested two deep, argument mentioning the innermost bound name
         ("SSI", "e.jets.Select(lambda v: helper3(e.jets, v.pt))"), ("SI", "helper3(e.jets, e.a)"),
+        ("SI", "e.jets.SelectMany(lambda j: j.tr).Select(lambda t: t.q + e.a)"),
+        ("SI", "e.jets.SelectMany(lambda j: j.tr).Where(lambda t: t.q > e.a).Select(lambda t: t.q)"),
+        ("SI", "e.jets.Select(lambda j: j.pt).Where(lambda p: p > e.a).Select(lambda p: p + e.b)"),
+        ("SSI", "e.jets.Select(lambda j: j.tr.Select(lambda t: t.q + j.pt + e.a))"),
         ("I", "(lambda: e.a)() + e.b"), ("X", "(lambda x, y: (y, x))(e.a, e.b)"), ("X", "(lambda x, y: (y, x))(y=e.a, x=e.b)"),
     ],
     "I": [("I", "e + 1"), ("B", "e > 1"), ("X", "(e, e)"), ("I", "helper(e)"), ("I", "e + V"), ("I", "-e"),
